@@ -241,7 +241,7 @@ pub enum Cmd {
     HostReg(u8, u16),
     /// register sweep: one step from the installed state for every value of 16-bit register `which`
     /// (0 BC 1 DE 2 HL 3 IX 4 IY 5 SP 6 PC 7 AF) in block `blk` of `nblk`; flag hash under `fmask`
-    SWR { which: u8, blk: u32, nblk: u32, fmask: u8 },
+    SWR { which: u8, blk: u32, nblk: u32, fmask: u8, link: Option<(u8, u16)> },
 }
 
 impl Cmd {
@@ -275,7 +275,10 @@ impl Cmd {
             Cmd::SF(n8) => format!("SF {:X}", n8),
             Cmd::SFB(b) => format!("SFB {:X}", b),
             Cmd::Nap(ms) => format!("NAP {:X}", ms),
-            Cmd::SWR { which, blk, nblk, fmask } => format!("SWR {:X} {:X} {:X} {:02X}", which, blk, nblk, fmask),
+            Cmd::SWR { which, blk, nblk, fmask, link } => match link {
+                None => format!("SWR {:X} {:X} {:X} {:02X}", which, blk, nblk, fmask),
+                Some((l, d)) => format!("SWR {:X} {:X} {:X} {:02X} {:X} {:04X}", which, blk, nblk, fmask, l, d),
+            },
             Cmd::Sync | Cmd::SetPC(_) | Cmd::Singles { .. } | Cmd::WBPC(..) | Cmd::HostReg(..) => "<runtime>".into(),
         }
     }
@@ -656,7 +659,7 @@ impl Imp {
                 std::thread::sleep(std::time::Duration::from_millis(*ms as u64));
                 "ok".into()
             }
-            Cmd::SWR { which, blk, nblk, fmask } => {
+            Cmd::SWR { which, blk, nblk, fmask, link } => {
                 let Some(s0) = self.last.clone() else { return "bad-op".into() };
                 #[inline]
                 fn mix(h: u64, v: u64) -> u64 {
@@ -672,9 +675,13 @@ impl Imp {
                     let v = (*blk * per + k) as u16;
                     load_regs(&mut self.cpu, &s0);
                     self.set_ctl(&s0, false);
-                    {
+                    let mut sets: Vec<(u8, u16)> = vec![(*which, v)];
+                    if let Some((l, d)) = link {
+                        sets.push((*l, v.wrapping_add(*d)));
+                    }
+                    for (w, v) in sets {
                         let r = &mut self.cpu.reg;
-                        match which {
+                        match w {
                             0 => { r.b = (v >> 8) as u8; r.c = v as u8 }
                             1 => { r.d = (v >> 8) as u8; r.e = v as u8 }
                             2 => { r.h = (v >> 8) as u8; r.l = v as u8 }
